@@ -110,7 +110,13 @@ def compute_interpolation_weights(inputs, keypoints, lengths):
     Interpolation weights tensor of shape: `(batch_size, num_keypoints)` or
     `(batch_size, units, num_keypoints)`.
   """
-  weights = (inputs - keypoints) / lengths
+  # Learned keypoints can collapse (softmax underflow): a piece of zero length
+  # is a step at its keypoint rather than 0/0.
+  is_piece = lengths > 0
+  weights = tf.where(
+      is_piece,
+      (inputs - keypoints) / tf.where(is_piece, lengths, tf.ones_like(lengths)),
+      tf.cast(inputs >= keypoints, dtype=inputs.dtype))
   weights = tf.minimum(weights, 1.0)
   weights = tf.maximum(weights, 0.0)
   # Prepend 1.0 at the beginning to add bias unconditionally. Worth testing
